@@ -148,13 +148,16 @@ def t_fast(tf, step):
 def t_min_step(size):
     """_calculate_minimum_candle_step: the chunk length of the fast simulator divides the minute count of every route
     timeframe (otherwise `(i + step) % count == 0` skips window ends and whole candles are never published).
-    Finite enumeration: every set of `size` distinct timeframes."""
+    Finite enumeration: every set of `size` distinct timeframes (size == 'all': every non-empty subset of the 17 timeframes,
+    i.e. the whole domain - the thorough tier decides this contract completely)."""
     import itertools
 
     def t(h):
         names = list(K.MINUTES)
         bad_div, bad_pos, n = [], [], 0
-        for combo in itertools.combinations(names, size):
+        combos = itertools.combinations(names, size) if size != 'all' else \
+            itertools.chain.from_iterable(itertools.combinations(names, r) for r in range(1, len(names) + 1))
+        for combo in combos:
             router = Obj(None, {'all_formatted_routes': [{'exchange': 'Sandbox', 'symbol': 'BTC-USDT', 'timeframe': tf} for tf in combo]})
             h.ctx.cfg.globals[f'{BM}.router'] = lambda i, router=router: router
             h.ctx.globals.pop(f'{BM}.router', None)
@@ -401,6 +404,13 @@ def tasks(tier):
     for size in ((1, 2) if tier == 'quick' else (1, 2, 3)):
         ts.append(Task(f'min-step.size{size}', t_min_step(size), overrides=dict(ov),
                        extra=dict(x, bounded=f'every set of {size} distinct timeframes (finite enumeration, concrete evaluation)')))
+    if True:
+        # the whole finite domain: 2^17 - 1 subsets, concrete evaluation of the real function (complete, not bounded)
+        ts.append(Task('min-step.all-subsets', t_min_step('all'), overrides=dict(ov), extra=dict(x, task_timeout_s=3600)))
     ts.append(Task('fixed-jump', t_fixed_jump, extra=dict(x), overrides=dict(ov)))
+    # the 1m candle stored by the match loop is the whole minute (not what a fill left over): shared with C02
+    import props.C02 as P2
+    ts.append(Task('match.stores-the-minute', P2.t_match_step(1, None, False), extra=dict(x, spec_mod=P2.SPEC, bounded='one resting order'),
+                   overrides=dict(ov), max_paths=20000))
     ts.append(Task('chunk-candle', t_chunk_candle, extra=dict(x), overrides=dict(ov)))
     return ts
